@@ -20,7 +20,8 @@ PROPS = {
     "C06": [(hs_server, ["C06_"]), (hs_client, ["C06_"]), (chan.C06, ["C06_"])],
     "C08": [(hs_client, ["C08_"]), (clientlife, ["C08_Client"])],
     "C01": [(codec.C01, ["C01_", "X_Harness"])],
-    "C02": [(codec.C02, ["C02_", "X_Harness"]), (clientlife, ["C02_SrvSurvives", "C08_ClientNoPanic"])],
+    "C02": [(codec.C02, ["C02_", "X_Harness"]), (clientlife, ["C02_SrvSurvives", "C08_ClientNoPanic"]),
+            (hs_server, ["X_NoPanic"])],
     "C11": [(codec.C11, ["C11_", "X_Harness"]), (clientlife, ["C11_PingReply"])],
     "C04": [(chan.C04, ["C04_", "C13_NoCrash"]), (transport, ["C04_Transport"]),
             (tcp_stream.C12, ["C12_WireClean", "C12_StreamIntegrity", "C12_NoSilentLoss", "C12_NoPanic"]),
